@@ -95,3 +95,16 @@ def with_layout(a, kind):
     buf = np.zeros((a.shape[0] * 2, a.shape[1] * 2))
     buf[::2, ::2] = a
     return buf[::2, ::2]
+
+
+def as_form(a, form):
+    """the same values as another kind of argument: None/'array' float ndarray, 'list' nested Python lists,
+    'int' an integer-typed ndarray when every value is integral (else unchanged)."""
+    arr = np.asarray(a, dtype=float)
+    if form == "list":
+        return arr.tolist()
+    if form == "intlist" and arr.size and np.all(np.isfinite(arr)) and np.all(arr == np.round(arr)) and np.all(np.abs(arr) < 2 ** 52):
+        return arr.astype(np.int64).tolist()
+    if form == "int" and arr.size and np.all(np.isfinite(arr)) and np.all(arr == np.round(arr)) and np.all(np.abs(arr) < 2 ** 52):
+        return arr.astype(np.int64)
+    return arr
